@@ -189,6 +189,15 @@ def r04_3(prog: Program, rep):
     closes = any(isinstance(c, ast.Call) and isinstance(c.func, ast.Attribute) and c.func.attr == "close" for c in ast.walk(h))
     reraises = any(isinstance(x, ast.Raise) and x.exc is None for x in h.body)
     rep.ob("R04.3", OS_PY, cp.qual, "rollback closes the pack and re-raises", closes and reraises, "", h.lineno)
+    # the steps of the rollback do not depend on one another: no call that can raise stands unguarded in front of a removal
+    def has_remove(x):
+        return any(isinstance(c, ast.Call) and dotted(c.func) in ("os.remove", "os.unlink") for c in ast.walk(x))
+    last = max((i for i, st in enumerate(h.body) if has_remove(st)), default=-1)
+    naked = [st for st in h.body[:last] if isinstance(st, (ast.Expr, ast.Assign)) and any(isinstance(c, ast.Call) for c in ast.walk(st))]
+    rep.ob("R04.3", OS_PY, cp.qual, "no unguarded call stands in front of the removals of the rollback", last >= 0 and not naked,
+           (f"`{norm(naked[0], 50)}` can raise (closing a mapped pack fails with BufferError while the frames of the exception in flight still hold views "
+            f"of it) and the removals behind it are skipped: the rejected pack stays installed and its objects visible") if naked else "no removal in the handler",
+           naked[0].lineno if naked else h.lineno)
 
 
 def r04_4(prog: Program, rep):
@@ -299,6 +308,11 @@ def r04_10(prog: Program, rep):
                 rm = {i for i, nd in g.nodes.items() for c in node_calls(nd)
                       if (dotted(c.func) in ("os.remove", "os.unlink") or callee_name(c) == "_remove_readonly") and c.args
                       and isinstance(c.args[0], ast.Name) and c.args[0].id == pv}
+                # a sibling closure that removes the path (abort) counts as the removal where it is called
+                removers = {fn.name for qq, fn in m.funcs.items() if qq.startswith(q + ".<locals>.") and fn is not t and any(
+                    isinstance(c, ast.Call) and dotted(c.func) in ("os.remove", "os.unlink") and c.args and isinstance(c.args[0], ast.Name) and c.args[0].id == pv
+                    for c in ast.walk(fn.node))}
+                rm |= {i for i, nd in g.nodes.items() for c in node_calls(nd) if isinstance(c.func, ast.Name) and c.func.id in removers}
                 if t is f:
                     mk = g.nodes_containing(a.value)
                     start = [b for i in mk for b, l in g.succ[i] if l not in EXC_LABELS]
